@@ -70,17 +70,34 @@ def _install(ctx, ex, hw):
     it.stubs = st
 
     def first_unused(it_, stn, sc):
-        # for physical_address in count(0): invariant  forall q < p: q in used
+        """loop contract of the scan for the first unused physical id, for either way of writing it:
+             for p in count(k): if p not in used: ... return p          (havoc p with forall k <= q < p: q in used; run the body once)
+             while p in used: p += 1                                    (havoc p likewise, plus p not in used; loop done)
+        anything else: no contract (the real loop is executed)"""
+        import ast as _ast
         used = sc.self0._used_physical_qubit_addresses
         if not isinstance(used, M.SymIntSet):
             return NotImplemented       # concrete in-use set: run the real loop
-        it_.fresh_ctr += 1
-        p = z3.Int(f"scan!{it_.fresh_ctr}")
         q = z3.Int("q!")
-        it_.pc.append(z3.And(p >= 0, z3.ForAll([q], z3.Implies(z3.And(q >= 0, q < p), z3.Select(used.arr, q)))))
-        it_.assign(stn.target, SInt(p), sc)
-        it_.exec_block(stn.body, sc)
-        raise I.PathAbort()        # body fell through: p is in use, invariant extends to p + 1
+        if isinstance(stn, _ast.For) and isinstance(stn.target, _ast.Name) and isinstance(stn.iter, _ast.Call) and getattr(stn.iter.func, "id", "") == "count":
+            start = lift_int(it_.ev(stn.iter.args[0], sc)) if stn.iter.args else z3.IntVal(0)
+            it_.fresh_ctr += 1
+            p = z3.Int(f"scan!{it_.fresh_ctr}")
+            it_.pc.append(z3.And(p >= start, z3.ForAll([q], z3.Implies(z3.And(q >= start, q < p), z3.Select(used.arr, q)))))
+            it_.assign(stn.target, SInt(p), sc)
+            it_.exec_block(stn.body, sc)
+            raise I.PathAbort()        # body fell through: p is in use, invariant extends to p + 1
+        if isinstance(stn, _ast.While) and isinstance(stn.test, _ast.Compare) and len(stn.test.ops) == 1 and isinstance(stn.test.ops[0], _ast.In) \
+                and isinstance(stn.test.left, _ast.Name) and len(stn.body) == 1 and isinstance(stn.body[0], _ast.AugAssign) \
+                and isinstance(stn.body[0].op, _ast.Add) and getattr(stn.body[0].target, "id", None) == stn.test.left.id \
+                and isinstance(stn.body[0].value, _ast.Constant) and stn.body[0].value.value == 1 and not stn.orelse:
+            start = lift_int(it_.ev(stn.test.left, sc))
+            it_.fresh_ctr += 1
+            p = z3.Int(f"scan!{it_.fresh_ctr}")
+            it_.pc.append(z3.And(p >= start, z3.Not(z3.Select(used.arr, p)), z3.ForAll([q], z3.Implies(z3.And(q >= start, q < p), z3.Select(used.arr, q)))))
+            it_.assign(stn.test.left, SInt(p), sc)
+            return None                 # loop finished
+        return NotImplemented
     it.loop_contracts[("netqasm.backend.executor.Executor._get_unused_physical_qubit", 0)] = first_unused
     it.loop_contracts[("netqasm.sdk.shared_memory.Arrays._assert_list", 0)] = M.foreach_generic_element
 
